@@ -47,7 +47,8 @@ CONSTANTS MaxOps, MaxRows, MaxCancels, MaxDepth,
 VARIABLES st, last
 vars == <<st, last>>
 
-I(t, a, b) == [t |-> t, a |-> a, b |-> b]
+I(t, a, b) == [t |-> t, a |-> a, b |-> b, n |-> 0]
+In(t, a, b, n) == [t |-> t, a |-> a, b |-> b, n |-> n]      \* n: the savepoint a ROLLBACK TO has to name
 CallRet(k) == <<I("call", k, ""), I("ret", k, "")>>
 Eff(k, op, sql) == <<I("call", k, ""), I("drv", op, sql), I("ret", k, "")>>
 ExecPlan(sql) == CallRet("cursor") \o Eff("execute", "exec", sql) \o (IF sql = "INSERT" THEN CallRet("cursorclose") ELSE <<>>)
@@ -64,7 +65,7 @@ InitSt(pool, prog, free) ==
    returns |-> 0, everout |-> FALSE, idle |-> IF pool = "idle" THEN {1} ELSE {}, dead |-> 0,
    open |-> IF pool = "idle" THEN {1} ELSE {}, nextid |-> IF pool = "cold" THEN 1 ELSE 2, creating |-> 0, fresh |-> 0,
    abandoned |-> {}, todo |-> <<>>, closestarted |-> FALSE, explicit |-> FALSE, kind |-> "none", closed |-> FALSE,
-   aborting |-> FALSE, strict |-> pool # "cold",
+   aborting |-> FALSE, strict |-> pool # "cold", slept |-> FALSE,
    \* ghosts for the property
    pooldirty |-> FALSE, badcommit |-> FALSE, lost |-> FALSE]
 
@@ -119,6 +120,28 @@ UnwindInvalid(s) ==
          [] s.stack[1].k = "sm_begin" -> <<I("closetask", "smgo", ""), I("closetask", "sess", ""), I("closedone", "sess", ""),
                                             I("closedone", "smgo", "")>>
          [] OTHER -> <<>>
+\* the exception leaves through the entered blocks while the connection is alive (the task was suspended in an await that is not
+\* a driver call): every block's __aexit__ undoes its own level - ROLLBACK TO for a savepoint block, ROLLBACK for a begin block,
+\* the shielded close for the outermost block; a connection obtained with a plain `await engine.connect()` is left to the finalizer
+RECURSIVE ConnUnwind(_, _, _)
+ConnUnwind(s, i, txn) ==
+  IF i = 0 THEN <<>>
+  ELSE LET b == s.stack[i] IN
+       CASE b.k = "with_nested" -> (IF b.act THEN CallRet("cursor") \o <<I("call", "execute", ""), In("drv", "exec", "ROLLBACK_TO", b.sp), I("ret", "execute", "")>>
+                                     ELSE <<>>) \o ConnUnwind(s, i - 1, txn)
+         [] b.k = "with_begin" -> (IF b.act THEN Eff("rollback", "rollback", "") ELSE <<>>) \o ConnUnwind(s, i - 1, IF b.act THEN FALSE ELSE txn)
+         [] b.k = "with_connect" -> Shielded("conn", ClosePlan(s, txn))
+         [] b.k = "engine_begin" -> (IF b.act THEN Eff("rollback", "rollback", "") ELSE <<>>)
+                                    \o Shielded("conn", ClosePlan(s, IF b.act THEN FALSE ELSE txn))
+         [] OTHER -> ConnUnwind(s, i - 1, txn)
+UnwindLive(s) ==
+  IF s.stack = <<>> THEN <<>>
+  ELSE IF s.kind = "conn" THEN ConnUnwind(s, Len(s.stack), s.txn)
+  ELSE LET rel == IF s.sconn THEN SessRelease("rollback") ELSE <<>> IN
+       CASE s.stack[1].k = "with_session" -> IF Len(s.stack) = 2 THEN rel \o Shielded("sess", <<>>) ELSE Shielded("sess", rel)
+         [] s.stack[1].k = "sm_begin" -> <<I("closetask", "smgo", "")>> \o rel
+                                          \o <<I("closetask", "sess", ""), I("closedone", "sess", ""), I("closedone", "smgo", "")>>
+         [] OTHER -> <<>>
 \* invalidation of the interrupted connection: pool invalidate -> terminate (graceful close under its own shield) -> record back
 Invalidation(s) == <<I("pool", "invalidate", ""), I("pool", "close", "")>> \o Eff("close", "close", "")
                    \o (IF s.resetting THEN (IF Legacy THEN <<>> ELSE <<I("pool", "checkin0r", "")>>)
@@ -129,12 +152,12 @@ ValidOps(s) ==
   IF s.pc = 0 THEN {"connect", "with_connect", "engine_begin"} \cup (IF Session THEN {"with_session", "sm_begin"} ELSE {})
   ELSE IF s.closed THEN {}
   ELSE IF s.kind = "conn" THEN
-         (IF s.nrow < MaxRows THEN {"exec"} ELSE {}) \cup {"nested", "with_nested"}
+         (IF s.nrow < MaxRows THEN {"exec"} ELSE {}) \cup {"nested", "with_nested"} \cup (IF ~s.slept THEN {"sleep"} ELSE {})
          \cup (IF ~s.txn THEN {"begin", "with_begin"} ELSE {})
          \cup (IF ~InBegin(s) THEN {"commit", "rollback"} ELSE {})
          \cup (IF s.explicit /\ s.stack = <<>> THEN {"close"} ELSE {})
          \cup (IF s.stack # <<>> THEN {"exit"} ELSE {})
-  ELSE (IF s.nrow < MaxRows THEN {"s_exec"} ELSE {})
+  ELSE (IF s.nrow < MaxRows THEN {"s_exec"} ELSE {}) \cup (IF ~s.slept THEN {"sleep"} ELSE {})
          \cup (IF ~InBegin(s) THEN {"s_commit", "s_rollback"} ELSE {})
          \cup (IF ~s.stxn THEN {"s_begin"} ELSE {})
          \cup (IF s.stack # <<>> THEN {"exit"} ELSE {})
@@ -172,6 +195,7 @@ OpEnd(s, e) ==
               [] op = "s_exec" -> [s1 EXCEPT !.stxn = TRUE]
               [] op \in {"s_commit", "s_rollback"} -> [s1 EXCEPT !.stxn = FALSE]
               [] op = "close" -> [s1 EXCEPT !.closed = TRUE]
+              [] op = "sleep" -> [s1 EXCEPT !.slept = TRUE]
               [] op = "exit" -> [s1 EXCEPT !.stack = SubSeq(@, 1, Len(@) - 1),
                                            !.stxn = IF Top(s).k = "s_begin" THEN FALSE ELSE @,
                                            !.closed = Top(s).k \in OuterKinds]
@@ -189,6 +213,8 @@ Cancel(s, e) ==
                  ELSE IF s.flid = s.out /\ s.out # 0
                  THEN R({}, [s0 EXCEPT !.hit = TRUE, !.fl = "", !.todo = Invalidation(s) \o UnwindInvalid(s)])
                  ELSE R({"Cancel.in_flight_call_is_on_the_programs_connection"}, s0)
+          ELSE IF s.op = "sleep" /\ s0.todo = <<>>
+               THEN R({}, [s0 EXCEPT !.todo = UnwindLive(s)])     \* suspended in a non-database await: the connection stays usable
           ELSE \* not started yet, or everything the shielded close had to do is done and the outer waiter has not resumed yet
                R(Fail("Cancel.only_at_a_suspension", (s.pc = 0 /\ s.op = "")
                                                       \/ (s.op = "exit" /\ s0.todo = <<>> /\ Top(s).k \in OuterKinds)), s0)
@@ -245,6 +271,11 @@ Effect(s, e) ==
          IF i = 0 THEN R({"Release.savepoint_exists"}, s)
          ELSE R(Fail("Release.is_the_blocks_savepoint", s.op = "exit" /\ Top(s).k = "with_nested" /\ Top(s).sp = e.n),
                 [s EXCEPT !.frames = [SubSeq(s.frames, 1, i - 1) EXCEPT ![i - 1].r = s.frames[i - 1].r \cup UNION {s.frames[j].r : j \in i..Len(s.frames)}]])
+    [] e.a = "exec" /\ e.b = "ROLLBACK_TO" ->
+         LET i == SpIndex(s, e.n) IN
+         IF i = 0 THEN R({"RollbackTo.savepoint_exists"}, s)
+         ELSE R(Fail("RollbackTo.only_while_an_exception_leaves_a_savepoint_block", s.exc),
+                [s EXCEPT !.frames = [SubSeq(s.frames, 1, i) EXCEPT ![i].r = {}]])
     [] e.a = "exec" -> R({"Exec.statement_class"}, s)
     [] e.a = "commit" ->
          LET due == s.op \in CommitOps \/ (s.op = "exit" /\ s.stack # <<>> /\ Top(s).k \in BeginBlocks) IN
@@ -299,7 +330,7 @@ Mech(s, e) ==
               LET w == Fail("Ret.expected", h.t = "ret" /\ h.a = e.a /\ s.fl = e.a /\ s.flid = e.id)
               IN IF w # {} THEN R(w \cup {Expect(h)}, s) ELSE R({}, [Pop(s) EXCEPT !.fl = ""])
          [] e.e = "drv" ->
-              LET w == Fail("Drv.expected", h.t = "drv" /\ h.a = e.a /\ (h.b = "" \/ h.b = e.b))
+              LET w == Fail("Drv.expected", h.t = "drv" /\ h.a = e.a /\ (h.b = "" \/ h.b = e.b) /\ (h.n = 0 \/ h.n = e.n))
                        \cup Fail("Drv.on_the_checked_out_connection", IdOk(s, e.id))
               IN IF w # {} THEN R(w \cup {Expect(h)}, s) ELSE Effect(Pop(s), e)
          [] e.e = "pool" ->
@@ -357,7 +388,7 @@ Inst(s, h) ==
   CASE h.t = "call" -> {Ev("call", h.a, "", CallId(s, h.a), 0)}
     [] h.t = "ret" -> {Ev("ret", h.a, "", s.flid, 0)}
     [] h.t = "drv" -> {Ev("drv", h.a, h.b, IF h.a = "stop" THEN s.out ELSE s.flid,
-                          CASE h.b = "INSERT" -> s.nrow + 1 [] h.b = "SAVEPOINT" -> s.spseq + 1
+                          CASE h.n # 0 -> h.n [] h.b = "INSERT" -> s.nrow + 1 [] h.b = "SAVEPOINT" -> s.spseq + 1
                             [] h.b = "RELEASE" -> (IF s.stack # <<>> THEN Top(s).sp ELSE 0) [] OTHER -> 0)}
     [] h.t = "pool" ->
          CASE h.a = "connect" -> {Ev("pool", "connect", "", s.creating, 0)}
@@ -378,7 +409,7 @@ StartOp == /\ st.todo = <<>> /\ st.phase = "run" /\ ~st.exc /\ st.op = "" /\ st.
 \* Cancel / Timeout: at ANY suspension - a driver call in flight (before or after its effect), the wait for a shielded close
 \* task, or before the task ever ran
 CanCancel(s) == /\ s.phase = "run" /\ s.ncancel < MaxCancels
-                /\ (s.fl # "" \/ s.shield # <<>> \/ (s.pc = 0 /\ s.op = "")
+                /\ (s.fl # "" \/ s.shield # <<>> \/ (s.pc = 0 /\ s.op = "") \/ (s.op = "sleep" /\ s.todo = <<I("opend", "", "")>>)
                     \/ (s.op = "exit" /\ s.todo = <<I("opend", "", "")>> /\ Top(s).k \in OuterKinds))
 CancelAct == CanCancel(st) /\ LET e == Ev("cancel", "main", "", 0, 0) r == Step(st, e) IN
                                 st' = r.st /\ last' = [e |-> e, why |-> r.why]
